@@ -241,14 +241,134 @@ class SEvent(object):
     return self._flag
 
 
+class SCondition(object):
+  """threading.Condition over a shim lock: wait() releases the lock, blocks
+  until notified, re-acquires."""
+  _count = 0
+
+  def __init__(self, lock=None):
+    SCondition._count += 1
+    self.name = "C%d" % SCondition._count
+    self._lock = lock if lock is not None else SLock()
+    self._waiters = []
+    self.acquire = self._lock.acquire
+    self.release = self._lock.release
+
+  def __enter__(self):
+    self._lock.acquire()
+    return self
+
+  def __exit__(self, *exc):
+    self._lock.release()
+    return False
+
+  def wait(self, timeout=None):
+    token = [False]
+    self._waiters.append(token)
+    self._lock.release()
+    s = _sched()
+    if s is not None and s.me() is not None:
+      if timeout is None:
+        s.switch("cond-wait " + self.name, pred=lambda: token[0],
+                 blocked_on="condition " + self.name)
+      else:               # a timed wait may return un-notified at any time
+        s.switch("cond-timed-wait " + self.name)
+    if not token[0] and token in self._waiters:
+      self._waiters.remove(token)
+    self._lock.acquire()
+    return token[0]
+
+  def wait_for(self, predicate, timeout=None):
+    result = predicate()
+    while not result:
+      self.wait(timeout)
+      result = predicate()
+      if timeout is not None:
+        break
+    return result
+
+  def notify(self, n=1):
+    s = _sched()
+    if s is not None and s.me() is not None:
+      s.switch("notify " + self.name)
+    for token in self._waiters[:n]:
+      token[0] = True
+    del self._waiters[:n]
+
+  def notify_all(self):
+    self.notify(len(self._waiters))
+  notifyAll = notify_all
+
+
+class SSemaphore(object):
+  _count = 0
+
+  def __init__(self, value=1):
+    SSemaphore._count += 1
+    self.name = "S%d" % SSemaphore._count
+    self._value = value
+
+  def acquire(self, blocking=True, timeout=None):
+    s = _sched()
+    if s is not None and s.me() is not None:
+      if blocking and timeout is None:
+        s.switch("sem-acquire " + self.name, pred=lambda: self._value > 0,
+                 blocked_on="semaphore " + self.name)
+      else:
+        s.switch("sem-try-acquire " + self.name)
+        if self._value <= 0:
+          return False
+    self._value -= 1
+    return True
+
+  def release(self, n=1):
+    self._value += n
+    s = _sched()
+    if s is not None and s.me() is not None:
+      s.switch("sem-release " + self.name)
+
+  def __enter__(self):
+    self.acquire()
+    return self
+
+  def __exit__(self, *exc):
+    self.release()
+    return False
+
+
+class SRLock(SLock):
+  """Re-entrant variant (owner + depth)."""
+  def __init__(self):
+    SLock.__init__(self)
+    self._depth = 0
+    self._owner_ident = None
+
+  def acquire(self, blocking=True, timeout=-1):
+    me = _real_threading.get_ident()
+    if self._locked and self._owner_ident == me:
+      self._depth += 1
+      return True
+    SLock.acquire(self, blocking, timeout)
+    self._owner_ident, self._depth = me, 1
+    return True
+
+  def release(self):
+    self._depth -= 1
+    if self._depth == 0:
+      self._owner_ident = None
+      SLock.release(self)
+
+
 def make_shim():
   shim = types.ModuleType("threading_shim")
   for name in dir(_real_threading):
     if not name.startswith("__"):
       setattr(shim, name, getattr(_real_threading, name))
   shim.Lock = SLock
-  shim.RLock = SLock      # lazy_io uses no re-entrant locking
+  shim.RLock = SRLock
   shim.Event = SEvent
+  shim.Condition = SCondition
+  shim.Semaphore = shim.BoundedSemaphore = SSemaphore
   return shim
 
 
